@@ -208,6 +208,7 @@ class ClientHarness(object):
         'sendLine': lambda ip, selfobj, line: self.sent_lines.append(line)}),
       'Int32StringReceiver': ModelClass('Int32StringReceiver', methods={
         'sendString': lambda ip, selfobj, s: self.sent_strings.append(s)}),
+      'log': Namespace('log', {n: Builtin('log.' + n, lambda ip, a, k: None) for n in ('err', 'clients', 'msg', 'debug')}),
       'pickle': Namespace('pickle', {'dumps': Builtin('dumps', lambda ip, a, k: ('pickle.dumps', a[0], k.get('protocol')))}),
     }}
     self.ip = Interp(ctx, index, bindings=self.bindings)
@@ -240,7 +241,7 @@ def install_take_loop(h):
   def havoc(fr):
     fr.gen_out.havoc(h.ip, 'batch')
     h.queue.havoc(h.ip, 'queue')
-  h.ip.loops[(Q, 0)] = LoopSpec('for _ in range(', inv, havoc, ghost_pre=pre, locals_modified=['_'])
+  h.ip.loops[(Q, 0)] = LoopSpec('for _ in range(', inv, havoc, ghost_pre=pre, locals_modified=[])
   h.take_old = old
 
 
